@@ -76,6 +76,9 @@ def repo_suite_traces(run):
     if not os.path.exists(out):
         raise tlc.MachineryError('test-suite under tracer produced no traces:\n' + p.stdout[-1500:])
     d = json.load(open(out))
+    if getattr(run, 'want_graph_traces', False):
+        run.trace_validate_graph(d.get('gtraces', []), 'repository test-suite (attack graphs)', timeout=2400)
+        return
     for key, spec in d['specs'].items():
         ts = [t for t in d['traces'] if t['lang'] == key]
         run.trace_validate(materialise.record_of(spec), ts, 'repository test-suite (%s)' % key, lang_name=key)
